@@ -39,6 +39,9 @@ func worker(id int, in <-chan int, out chan<- string, done *int32) {
 	atomic.AddInt32(done, 1)
 }
 
+// a defined channel type
+type tokens chan struct{}
+
 // a channel made while the package initialises (before any simulated run exists)
 var pkgCh = make(chan int, 1)
 
@@ -256,5 +259,35 @@ T:
 	// 10. the package-level channel
 	go func() { pkgCh <- 9 }()
 	say(fmt.Sprint("pkgch:", <-pkgCh))
+
+	// 11. a defined channel type used as a counting semaphore
+	pool := make(tokens, 2)
+	var twg sync.WaitGroup
+	peak, cur := 0, 0
+	var tmu sync.Mutex
+	for i := 0; i < 4; i++ {
+		twg.Add(1)
+		go func() {
+			defer twg.Done()
+			pool <- struct{}{}
+			tmu.Lock()
+			cur++
+			if cur > peak {
+				peak = cur
+			}
+			tmu.Unlock()
+			time.Sleep(time.Millisecond)
+			tmu.Lock()
+			cur--
+			tmu.Unlock()
+			<-pool
+		}()
+	}
+	twg.Wait()
+	select {
+	case pool <- struct{}{}:
+	default:
+	}
+	say(fmt.Sprint("tokens: peak<=2:", peak <= 2, " len:", len(pool), " cap:", cap(pool)))
 	return strings.Join(log, ";")
 }
